@@ -786,7 +786,7 @@ impl WriterSet {
             self.segment_size,
         )?;
 
-        let (closed_event_index, closed_partition_index, closed_stream_index) = {
+        {
             let mut indexes = self.indexes.blocking_write();
             for PendingIndex {
                 event_id,
@@ -826,31 +826,34 @@ impl WriterSet {
             self.index_segment_id
                 .store(self.bucket_segment_id.segment_id, Ordering::Release);
 
-            (
-                closed_event_index,
-                closed_partition_index,
-                closed_stream_index,
-            )
-        };
+            #[cfg(sierradb_verif)]
+            verif_hooks::point(
+                "wtp.rollover.swapped",
+                ((self.bucket_segment_id.bucket_id as u64) << 32)
+                    | self.bucket_segment_id.segment_id as u64,
+                0,
+                0,
+            );
 
-        #[cfg(sierradb_verif)]
-        verif_hooks::point(
-            "wtp.rollover.swapped",
-            ((self.bucket_segment_id.bucket_id as u64) << 32)
-                | self.bucket_segment_id.segment_id as u64,
-            0,
-            0,
-        );
-
-        self.reader_pool.add_bucket_segment(
-            old_bucket_segment_id,
-            &old_reader,
-            Some(&closed_event_index),
-            Some(&closed_partition_index),
-            Some(&closed_stream_index),
-        );
-        self.reader_pool
-            .add_bucket_segment(self.bucket_segment_id, &self.reader, None, None, None);
+            // The live indexes are now those of the new, empty segment: the sealed segment's
+            // indexes must be in the reader pool before any reader can see that, otherwise its
+            // (acknowledged) events are in neither place. Install them while the write lock is
+            // still held; reader-pool tasks never take this lock.
+            self.reader_pool.add_bucket_segment(
+                old_bucket_segment_id,
+                &old_reader,
+                Some(&closed_event_index),
+                Some(&closed_partition_index),
+                Some(&closed_stream_index),
+            );
+            self.reader_pool.add_bucket_segment(
+                self.bucket_segment_id,
+                &self.reader,
+                None,
+                None,
+                None,
+            );
+        }
 
         #[cfg(sierradb_verif)]
         verif_hooks::point(
